@@ -106,7 +106,7 @@ class Heap:
     # ---- dicts
     def _dsorts(self, d: SDict):
         ks = z3.StringSort() if d.key == "str" else z3.IntSort()
-        vs = {"ref": z3.IntSort(), "str": z3.StringSort(), "int": z3.IntSort(), "list": z3.IntSort()}.get(d.val, z3.IntSort())
+        vs = {"ref": z3.IntSort(), "str": z3.StringSort(), "int": z3.IntSort(), "list": z3.IntSort(), "vlist": z3.SeqSort(z3.IntSort())}.get(d.val, z3.IntSort())
         return ks, vs
 
     def _dmap(self, d: SDict):
@@ -259,6 +259,8 @@ class Engine:
         return s.check() == z3.unsat
 
     def truth(self, path, v):
+        if isinstance(v, SMatch):
+            return self.c.regex_matches(v.rx, v.s)
         if isinstance(v, SOpaque):
             return fresh("opaque_truth", z3.BoolSort())
         if isinstance(v, SList):
@@ -516,7 +518,7 @@ class Engine:
         val = val or (self.c.dict_val_hint(getattr(e, "lineno", None)) if e is not None else None) or "ref"
         d = SDict(path.heap.new_id(), key, val)
         ks, vs = path.heap._dsorts(d)
-        dflt = z3.StringVal("") if vs == z3.StringSort() else z3.IntVal(0)
+        dflt = z3.StringVal("") if vs == z3.StringSort() else (z3.Empty(vs) if z3.is_seq(z3.Const("x!", vs)) else z3.IntVal(0))
         path.heap.dict_set(d, z3.K(ks, z3.BoolVal(False)), z3.K(ks, dflt))   # canonical empty dict
         return d
 
@@ -845,6 +847,8 @@ class Engine:
             n = z3.Length(seq)
             self.oblige(path, z3.And(i >= -n, i < n), f"safety.index.{self.lab(e)}", "pre", "list index in range (no IndexError)")
             return self.elem_val(path, base, seq[z3.If(i < 0, i + n, i)])
+        if isinstance(base, SDict) and base.val == "vlist":
+            return SDictSlot(base, self.key_term(path, base, idx))
         if isinstance(base, SDict) and base.dflt == "list":
             # collections.defaultdict(list): a missing key is inserted with a new empty list
             k = self.key_term(path, base, idx)
@@ -1259,6 +1263,33 @@ class Engine:
         val = self.elem_val(path, lst, seq[j])
         path.heap.list_set(lst, z3.Concat(z3.SubSeq(seq, 0, j), z3.SubSeq(seq, j + 1, n - j - 1)))
         return val
+
+    def m_SDictSlot_append(self, path, slot, e):
+        v = self.ev(path, e.args[0])
+        d = slot.d
+        h, vv = path.heap.dict_has(d), path.heap.dict_val(d)
+        cur = z3.If(z3.Select(h, slot.key), z3.Select(vv, slot.key), z3.Empty(z3.SeqSort(z3.IntSort())))
+        path.heap.dict_set(d, z3.Store(h, slot.key, z3.BoolVal(True)), z3.Store(vv, slot.key, z3.Concat(cur, z3.Unit(sid(path, self.to_str(path, v))))))
+        return SNone()
+
+    def bi_defaultdict(self, path, e):
+        return SDict(self._fresh_dict_id(path, "str", "vlist"), "str", "vlist", dflt="list")
+
+    def _fresh_dict_id(self, path, key, val):
+        d = SDict(path.heap.new_id(), key, val)
+        ks, vs = path.heap._dsorts(d)
+        path.heap.dict_set(d, z3.K(ks, z3.BoolVal(False)), z3.K(ks, z3.Empty(vs) if val == "vlist" else z3.IntVal(0)))
+        return d.id
+
+    # ---- regex objects (opaque): PATTERN.match(s) -> SMatch
+    def m_SOpaque_match(self, path, rx, e):
+        if rx.tag != "regex":
+            raise EngineError("match on a non-regex")
+        return SMatch(rx.t, self.to_str(path, self.ev(path, e.args[0])))
+
+    def m_SMatch_group(self, path, m, e):
+        g = e.args[0].value if e.args and isinstance(e.args[0], ast.Constant) else 0
+        return SStr(self.c.regex_group(m.rx, g, m.s))
 
     # ---- dict methods
     def m_SDict_get(self, path, d, e):
